@@ -4609,6 +4609,8 @@ class UDFFileIdentifierDescriptor:
             except UnicodeEncodeError:
                 self.fi = bytename.encode('utf-16_be')
                 self.encoding = 'utf-16_be'
+            if len(self.fi) > 254:
+                raise pycdlibexception.PyCdlibInvalidInput('UDF names can be a maximum of 254 bytes once encoded')
             self.len_fi = len(self.fi) + 1
 
         self.parent = parent
